@@ -42,7 +42,8 @@ def gen_cases(ctx):
         import math
         pol[(axis + 1) % 3], pol[(axis + 2) % 3] = math.cos(ang), math.sin(ang)
         cases.append({"kind": "leak", "axis": axis, "dir": d, "pol": pol, "cpw": ctx.rng.choice([15, 16, 20]), "pulsed": bool(ctx.rng.random() < 0.5),
-                      "eps": [ctx.rng.choice([2.25, 4.0, 12.0]), 1.0][j % 2]})      # homogeneous dielectric / vacuum
+                      "eps": [ctx.rng.choice([2.25, 4.0, 12.0]), 1.0][j % 2],      # homogeneous dielectric / vacuum
+                      "hgiven": bool(j % 2)})                                       # polarisation declared through H instead of E
     for r in ([0.3, 0.45] if ctx.quick else [0.3, 0.35, 0.4, 0.5, 0.8, 1.2]):
         axis = ctx.rng.randint(0, 2)
         pol = [0.0, 0.0, 0.0]
@@ -85,7 +86,7 @@ def predicate(case, out):
         return None
     if case.get("gauss") is None:
         if out["ratio"] > 1e-3:
-            return (f"uniform-leak:axis={case['axis']};dir={case['dir']};pulsed={case['pulsed']};eps={case.get('eps', 1.0)}", f"uniform plane source sends {out['ratio']:.3e} of its power backward")
+            return (f"uniform-leak:axis={case['axis']};dir={case['dir']};pulsed={case['pulsed']};eps={case.get('eps', 1.0)};hgiven={bool(case.get('hgiven'))}", f"uniform plane source sends {out['ratio']:.3e} of its power backward")
         return None
     if out["ratio"] > 0.10:
         r = case["gauss"]
